@@ -144,7 +144,35 @@ def close_flag_window_rule(ctx, rule):
             rule.violation(key, "close_object of a data packet is computed from {%s}: with interleave_blocks > 1 another open block "
                                 "may still hold repair symbols when the current block drains and the source-byte counter is complete, "
                                 "so the B flag precedes later packets of the same transfer" % ", ".join(deps)[:300], loc(s.sp))
-    rule.floor(1, "data packet constructions in BlockEncoder::read")
+        # the byte threshold of "every source byte has been read" is the transfer length (what is actually cut into symbols), compared with the
+        # source-byte counter
+        from ..cfg import cmp_kind, strip_ref
+        cmps = []
+        for blk in f.body.blocks:
+            if blk.cleanup:
+                continue
+            exprs = [sl.x.rvalue(st.rv, sl.x.depth) for st in blk.stmts if st.k == "assign"]
+            if blk.term.k == "switch":
+                exprs.append(sl.x.operand(blk.term.discr))
+            for ex in exprs:
+                cmps += [cmp_kind(c) for c in walk(ex) if cmp_kind(c)]
+        thr = []
+        for (op, a, b) in cmps:
+            if "source_size_transferred" in show(a) + show(b) and (op, show(a), show(b)) not in [(o_, show(x_), show(y_)) for (o_, x_, y_) in thr]:
+                thr.append((op, a, b))
+        key2 = "BlockEncoder::read last-packet byte threshold"
+        if not thr:
+            rule.violation(key2, "the close-object decision does not compare the source-byte counter with anything", loc(s.sp))
+        for (op, a, b) in thr:
+            cnt, lim = (a, b) if "source_size_transferred" in show(a) else (b, a)
+            op2 = op if cnt is a else {"Lt": "Gt", "Le": "Ge", "Gt": "Lt", "Ge": "Le", "Eq": "Eq", "Ne": "Ne"}[op]
+            limtxt = show(lim, 120)
+            if re.search(r"\.object\)?\.transfer_length", limtxt) and not re.search(r"content_length", limtxt) and op2 in ("Ge", "Eq"):
+                rule.ok(key2, "source_size_transferred %s %s" % ({"Ge": ">=", "Eq": "=="}[op2], limtxt[:60]), loc(s.sp))
+            else:
+                rule.violation(key2, "the counter of source bytes sent is compared (%s) with %s: the object is cut into symbols over its transfer length (the "
+                                     "encoded size), any other limit closes the object before or after its last packet" % (op2, limtxt[:80]), loc(s.sp))
+    rule.floor(2, "data packet constructions in BlockEncoder::read")
 
 
 def run(ctx):
@@ -342,6 +370,15 @@ def run(ctx):
     from . import c20
     r6 = ctx.rule("C08.R6", "stream sources: " + c20.R1_TEXT + " — otherwise source symbols are silently missing from the transfer", "loop rule (shared with C20.R1)")
     c20.stream_fill_rule(ctx, r6)
+
+    # ---- R8 every transfer starts at the first byte; end flags at their RFC positions -------------------------------
+    r8 = ctx.rule("C08.R8", "every transfer of a stream object starts at its first byte: " + c20.R2_TEXT + " (shared with C20.R2); the A and B flags the rules "
+                            "above reason about sit at their RFC 5651 bit positions in the LCT header on the writer and on the reader side (shared with C06.R7)",
+                  "MPT+WWF + E5 bit provenance")
+    c20.rewind_rule(ctx, r8)
+    from . import c06
+    c06.lct_first_word_rule(ctx, r8)
+    r8.floor(15, "rewind + header flag facts")
 
     # ---- R7 shard creation ------------------------------------------------------------------------
     r7 = ctx.rule("C08.R7", "source symbols: Block::new_from_buffer counts nb_source_symbols = div_ceil(len(buffer), E), dispatches each FEC encoding "
